@@ -16,15 +16,17 @@ BAD = 99
 
 
 class World(object):
-    def __init__(self):
+    def __init__(self, shape=0):
         build.install()
         from . import defer_classes as dc
         self.ps = [None, dc.P(), dc.P()]
-        self.d = dc.D(par=self.ps[1])
+        self.shape = shape
+        self.p0 = dc.P()          # shape 1: the delegate of the overridden base-class declarations - a stranger to D
+        self.d = dc.D(par=self.ps[1]) if shape == 0 else dc.DSub(par=self.ps[1], par0=self.p0)
         from traits.api import DelegatesTo, PrototypedFrom
         self.d.add_trait("da", DelegatesTo("par", "xa"))           # deferred traits given to the object at run time
         self.d.add_trait("dpa", PrototypedFrom("par", "xpa"))
-        self.d2 = dc.D2(par=self.d)
+        self.d2 = (dc.D2 if shape == 0 else dc.D2Sub)(par=self.d)
         self.logs = {x: [] for x in ATTRS}
         for x in ATTRS:
             self.d.on_trait_change(self._mk(x), x)
@@ -39,8 +41,10 @@ class World(object):
     def state(self):
         d = self.d
         par = 0 if d.par is None else 1 if d.par is self.ps[1] else 2
-        val = [{t: getattr(self.ps[p], t) for t in TARGETS} for p in (1, 2)]
-        local = {x: d.__dict__.get(x, ABSENT) for x in ATTRS}
+        # (a value that is not an int - the rejected value stored all the same - is projected to the code of Bad)
+        num = lambda v: v if type(v) is int else BAD
+        val = [{t: num(getattr(self.ps[p], t)) for t in TARGETS} for p in (1, 2)]
+        local = {x: num(d.__dict__.get(x, ABSENT)) for x in ATTRS}
         return {"par": par, "val": val, "local": local}
 
     def reads(self):
@@ -63,7 +67,7 @@ class World(object):
 
 def run_history(rnd, steps, t):
     from traits.trait_errors import TraitError
-    w = World()
+    w = World(rnd.randint(0, 1))
     out = []
     for s in range(steps):
         pre = w.state()
@@ -75,7 +79,14 @@ def run_history(rnd, steps, t):
         conc = lambda val: "bad" if val == BAD else val
         exc = ""
         try:
-            if u < 0.3:
+            if u < 0.08 and w.shape == 1:
+                # the stranger: every attribute of the base-class delegate gets the value
+                op, v = "setp0", rnd.choice([2, 3, 4, BAD])
+                setattr(w.p0, rnd.choice(TARGETS), conc(v))
+                if v != BAD:
+                    for tname in TARGETS:
+                        setattr(w.p0, tname, v)
+            elif u < 0.3:
                 op, v = "setd", rnd.choice([1, 2, 3, BAD])
                 setattr(w.d, x, conc(v))
             elif u < 0.6:
@@ -96,7 +107,7 @@ def run_history(rnd, steps, t):
             exc = "TraitError"
         except Exception as e:
             exc = type(e).__name__
-        calls = list(w.logs[x])
+        calls = list(w.logs[x]) if op != "setp0" else [c for xx in ATTRS for c in w.logs[xx]]
         post = w.state()
         reads, readq = w.reads()
         for xx in ATTRS:
